@@ -14,11 +14,12 @@
 // gen.go (balance folders, requests, raw transactions), oracle.go (the judgement), selftest.go
 // (oracle self-test with reference signers).
 //
-// Classes recorded in /verif/known/C13.json (unchanged tree), cause in /repo:
+// Classes found by this monitor and since repaired in /repo (0413aaf0, ec59b228, 1c3d5b14, 17dacc0c;
+// /verif/known/C13.json is empty, details in FINDINGS.md), former cause:
 //   msg-output/wrong-script/len76                         lib/btc/funcs.go:256  WritePutLen `<=` OP_PUSHDATA1
 //   wrote-tx-although-unfundable/amount-overflow          lib/btc/funcs.go:325,348; wallet/send.go:50,90 (uint64 wrap)
 //   wrote-tx-although-unfundable/f-first-amount-below-fee wallet/send.go:46     `am -= curFee` underflow
-//   no-tx/busy-hang/minsig+rfc6979                        wallet/signtx.go:118-139 + lib/btc/ecdsa.go:55-65
+//   (was) no-tx/busy-hang/minsig+rfc6979                  wallet/signtx.go:118-139 + lib/btc/ecdsa.go:55-65
 package main
 
 import (
@@ -44,11 +45,6 @@ const ID = "C13"
 func broken(format string, a ...interface{}) {
 	fmt.Printf("BROKEN property=%s %s\n", ID, fmt.Sprintf(format, a...))
 	os.Exit(2)
-}
-
-var hangConfirmed struct {
-	sync.Mutex
-	n int
 }
 
 func main() {
@@ -161,6 +157,7 @@ func main() {
 	run.Assume("with -f the fee is subtracted from the first -send amount; -f together with -batch only is accepted either way (the wallet ignores -f there: counted as batch_f_ignored)")
 	run.Assume("a request must succeed when the outputs the wallet is designed to recognise in its mode cover it (P2PKH, P2WPKH, P2TR of its keys in every mode, P2SH-P2WPKH with atype p2kh/segwit) and must fail when all outputs of its keys together do not; in between both are accepted")
 	run.Assume("validity of an input = exact standard key-spend structure + strict DER + low S + SIGHASH_ALL + signature verifies over the reference digest (legacy / BIP143 / BIP341, refsighash + refec), and additionally refscript.Verify with all standardness flags; context rules (lock time finality, BIP68, fees vs. relay policy, dust) are not judged")
+	run.Assume("minsig together with rfc6979 is a configuration error: expected exit != 0, the refusal on stderr, no file, balance untouched; minsig alone: every ECDSA signature + hash type <= 71 bytes; rfc6979 alone: every ECDSA signature equals the RFC 6979 signature recomputed by refec from the key printed by `wallet -dump *`")
 	os.RemoveAll(tmp)
 	minTx := nCases / 3
 	if run.Get("raw_fields_identical") < int64(nCases/20) {
@@ -228,11 +225,8 @@ func runStep(bin, dir string, w *wcfg, st *state, q *request, step int) *outcome
 	before := listDir(dir)
 	balBefore := listDir(filepath.Join(dir, "balance"))
 
-	mayHang := q.MinSig != 0 && q.Rfc != 0
-	wd := 120 * time.Second
-	if mayHang {
-		wd = 10 * time.Second // a normal run takes some 20 ms
-	}
+	bothSig := q.MinSig != 0 && q.Rfc != 0 // configuration error: must be refused
+	wd := 120 * time.Second                // a normal run takes some 20 ms
 	pr := runWallet(bin, dir, args, wd)
 	if os.Getenv("VERIF_DEBUG") != "" && pr.wall > time.Second {
 		fmt.Fprintf(os.Stderr, "wallet run took %v: %v\n", pr.wall, args)
@@ -294,41 +288,40 @@ func runStep(bin, dir string, w *wcfg, st *state, q *request, step int) *outcome
 	defer flush()
 
 	if pr.timedOut {
-		// evidence of a busy loop: the SIGQUIT dump shows the main goroutine inside sign_tx (the dump
-		// has no stack for a goroutine running on another thread than the one that took the signal),
-		// or the process burned CPU for the whole time (a normal run needs ~0.03 s of CPU)
-		inSign := strings.Contains(pr.quitStack, "main.sign_tx")
-		busy := func(p procResult, wd time.Duration) bool {
-			return strings.Contains(p.quitStack, "main.sign_tx") || p.cpu > wd/20
-		}
-		if mayHang && busy(pr, wd) {
-			hangConfirmed.Lock()
-			n := hangConfirmed.n
-			hangConfirmed.Unlock()
-			confirmed := n >= 3
-			if !confirmed {
-				// reproduce once with a three times longer watchdog before calling it a hang
-				os.WriteFile(filepath.Join(dir, "balance", "unspent.txt"), []byte(st.unspTxt), 0o600)
-				pr2 := runWallet(bin, dir, args, 30*time.Second)
-				confirmed = pr2.timedOut && busy(pr2, 30*time.Second)
-			}
-			if confirmed {
-				hangConfirmed.Lock()
-				hangConfirmed.n++
-				hangConfirmed.Unlock()
-				o.hang = true
-				o.v("no-tx/busy-hang/minsig+rfc6979", "the wallet never finishes signing (busy loop) when minsig and rfc6979 are both on: the deterministic signature is recomputed forever",
-					map[string]interface{}{"stack": stackOf(pr.quitStack, "main.sign_tx"), "stack_in_sign_tx": inSign, "cpu_s": pr.cpu.Seconds()})
-				return o
-			}
-		}
-		o.incon = append(o.incon, fmt.Sprintf("watchdog (%v) fired for wallet %v (minsig+rfc6979=%v, stack in sign_tx=%v, cpu %.2fs)", wd, args, mayHang, inSign, pr.cpu.Seconds()))
+		o.incon = append(o.incon, fmt.Sprintf("watchdog (%v) fired for wallet %v (cpu %.2fs, stack: %s)", wd, args, pr.cpu.Seconds(), firstLine(pr.quitStack, "main.")))
 		return o
 	}
 
 	after := listDir(dir)
 	nf := newFiles(before, after)
 	crashed := strings.Contains(pr.stderr, "panic:") || strings.Contains(pr.stderr, "goroutine 1 [")
+
+	if bothSig {
+		// minsig needs a fresh nonce per attempt, rfc6979 fixes the nonce: the wallet must refuse the
+		// combination (from flags or wallet.cfg) before doing anything
+		o.inc("config_refusal_runs/minsig+rfc6979")
+		const cls = "config-refusal/minsig+rfc6979/"
+		if len(nf) > 0 {
+			o.v(cls+"file-written", "minsig and rfc6979 are both on (a configuration error) but a file was written", map[string]interface{}{"files": nf})
+		}
+		if pr.exit == 0 {
+			o.v(cls+"exit-0", "minsig and rfc6979 are both on (a configuration error) but the wallet exits with 0", nil)
+		}
+		if !strings.Contains(pr.stderr, "minsig cannot be combined with rfc6979") {
+			o.v(cls+"no-message", "minsig and rfc6979 are both on but stderr does not say that the combination is refused", nil)
+		}
+		nb, _ := os.ReadFile(filepath.Join(dir, "balance", "unspent.txt"))
+		if string(nb) != st.unspTxt {
+			o.v(cls+"balance-changed", "the run was refused but balance/unspent.txt changed", map[string]interface{}{"after": string(nb)})
+		}
+		if x := newFiles(balBefore, listDir(filepath.Join(dir, "balance"))); len(x) > 0 {
+			o.v(cls+"balance-file-written", "the run was refused but a file appeared in balance/", map[string]interface{}{"files": x})
+		}
+		if len(o.vios) == 0 {
+			o.inc("config_refused_ok/minsig+rfc6979")
+		}
+		return o
+	}
 
 	if q.Raw {
 		o.inc("raw_runs")
